@@ -22,6 +22,7 @@ Actors and the code they stand for
 * **Connect** – `connStart`, `connInitial` (checkInitialMessage: consumes the first frame, calls its handler, decides),
   `connInitialFail`, `connRejectReady` (`close(ready)` on the reject path), `connNegSend c` / `connNegDone` (negotiate():
   up to two internal callers that are not gated by `ready`), `connNegErrs` (a loop error ends negotiation),
+  `connNegClosed` (a local `Close` ends negotiation),
   `connReady` (`close(ready)`), `connServeErr` / `connServeDone` (the final `select`), `connReturn` (after `wg.Wait`),
   `connFailReturn` (return on a failed setup; the deferred `Close` closes `done`).
 
@@ -229,6 +230,7 @@ inductive Act where
   | connNegSend (c typ pay : Nat)
   | connNegDone (next : NegNext)
   | connNegErrs
+  | connNegClosed
   | connReady
   | connServeErr
   | connServeDone
@@ -246,7 +248,7 @@ def actor : Act → Actor
   | .callReady c | .callSeeDone c | .callSeeCtx c | .callToken c | .callGetReply c => .caller c
   | .rdSeeDone | .rdHeader | .rdEof | .rdDispatch | .rdDeliver | .rdHandle | .rdWaitDone => .rd
   | .wrSeeDone | .wrPickAck | .wrPickReq _ | .wrWrite | .wrParkedDone => .wr
-  | .connInitial .. | .connInitialFail true | .connRejectReady | .connNegSend .. | .connNegDone _ | .connNegErrs
+  | .connInitial .. | .connInitialFail true | .connRejectReady | .connNegSend .. | .connNegDone _ | .connNegErrs | .connNegClosed
   | .connReady | .connServeErr | .connServeDone | .connReturn | .connFailReturn => .conn
 
 /-! ## helpers -/
@@ -352,6 +354,9 @@ def enabled (s : St) : Act → Bool
   | .connNegErrs => !s.errs.isEmpty && (match s.conn with
     | .negIdle _ | .negotiating _ _ => true
     | _ => false)
+  | .connNegClosed => s.done && (match s.conn with
+    | .negIdle _ | .negotiating _ _ => true
+    | _ => false)
   | .connReady => s.conn == .readying
   | .connServeErr => s.conn == .serving && !s.errs.isEmpty
   | .connServeDone => s.conn == .serving && s.done
@@ -452,6 +457,7 @@ def eff (s : St) : Act → St
   | .connNegErrs => match s.errs with
     | e :: rest => { s with errs := rest, conn := .failing e }
     | [] => s
+  | .connNegClosed => { s with conn := .failing .closed }
   | .connReady => { s with ready := true, negotiated := true, conn := .serving }
   | .connServeErr => match s.errs with
     | e :: rest => { s with errs := rest, done := true, conn := .waitLoops e }
